@@ -11,25 +11,29 @@ import (
 	"github.com/miekg/dns"
 )
 
-func verifGeoSubnet() netip.Prefix {
+// verifGeoSubnet returns an arbitrary masked IPv4 subnet of the given length.
+func verifGeoSubnet(bits int) netip.Prefix {
 	var gb [4]byte
-	for i := 0; i < 3; i++ {
+	for i := range gb {
 		gb[i] = nondetU8()
 	}
-	return netip.PrefixFrom(netip.AddrFrom4(gb), 24)
+	p := netip.PrefixFrom(netip.AddrFrom4(gb), bits)
+	verifAssume(p.Masked() == p)
+	return p
 }
 
 // VerifC05Partition: an answer the upstream scoped to a subnet is reused only for a
 // client mapped to the same subnet; a client that opted out with /0 is never served
 // from the subnet-specific cache and gets a /0 upstream query.
 //
-//verif:harness name=H05c-partition tier=quick,thorough bounds="two consecutive IPv4 clients asking the same question; GeoIP subnets symbolic /24; upstream scope of the first answer symbolic; second client plain, with an own ECS option, or opted out with /0; one-slot caches honouring the agdcache contract" reach=hit,miss,declined,scope-zero maxpaths=100000
+//verif:harness name=H05c-partition tier=quick,thorough bounds="two consecutive IPv4 clients asking the same question; GeoIP subnets symbolic with a length from {12, 20, 24}; upstream scope of the first answer symbolic; second client plain, with an own ECS option, or opted out with /0; one-slot caches honouring the agdcache contract" reach=hit,miss,declined,scope-zero maxpaths=100000
 //verif:assume maphash without collisions between different streams (hosts compared separately); no expiry between the two requests; GeoIP stub
 func VerifC05Partition() {
 	noECS, ecs := &verifCache{}, &verifCache{}
 	mw := verifMW(noECS, ecs)
 	verifSetClock(1 << 40)
-	s1, s2 := verifGeoSubnet(), verifGeoSubnet()
+	bits := []int{12, 20, 24}[verifChoice(3)]
+	s1, s2 := verifGeoSubnet(bits), verifGeoSubnet(bits)
 	scope := nondetU8()
 
 	ask := func(geo netip.Prefix, ecsOpt *dnsmsg.ECS, withOpt bool) (*verifNext5, *verifRW5) {
